@@ -66,7 +66,12 @@ void vf_run_case(Ctx& c, uint64_t index) {
     // each replay equals the model ...
     for (int i = 0; i < 3 && !failed; i++) {
       for (size_t d = 0; d < m.docs.size() && !failed; d++) {
-        if (X[i]->docs[d]->overflowed()) { if (within_capacity(m.docs[d])) viol("spurious-overflow", names[i]); failed = true; break; }
+        if (X[i]->docs[d]->overflowed()) {
+          Inspector::Snap so = Inspector::inspect(*X[i]->docs[d], true);
+          bool exhausted = so.ok && so.pools >= (size_t)AJ::detail::NULL_SLOT / ARDUINOJSON_POOL_CAPACITY + 1;   // slot ids lost to shrinkToFit(): C19's known finding
+          if (!exhausted && within_capacity(m.docs[d])) viol("spurious-overflow", names[i]);
+          failed = true; break;
+        }
         Inspector::Snap sn = Inspector::inspect(*X[i]->docs[d]);
         if (!sn.ok) { viol("structure", std::string(names[i]) + " doc" + std::to_string(d) + ": " + sn.error); break; }
         MVal y = extract(*X[i]->docs[d]); CmpOpt co; std::string why;
